@@ -41,6 +41,8 @@ def values_for(draw, code, k, allow_nan=True):
     out = []
     for _ in range(k):
         v = draw(codecs.value_for(nm, nb))
+        if nm == 'float' and nb in (16, 32) and draw(st.integers(0, 3)) == 0:
+            v = draw(codecs.float_between_st(nb))      # struct rounds these; so must pack / Array
         if isinstance(v, float) and math.isnan(v) and not allow_nan:
             v = 1.5
         out.append(jv(v))
@@ -87,6 +89,19 @@ def run_pack(case):
         exp = list(struct.unpack(sfmt, ref))
         require(not is_raised(got) and len(got) == len(exp) and all(same_value(g, e) for g, e in zip(got, exp)), 'unpack(code) differs from struct.unpack',
                 got=got if is_raised(got) else got[:8], expected=exp[:8], fmt=fmt)
+    if len(case['items']) >= 2:
+        # the same format given as a list of strings, one per item, then the first string alone again (and the list once more)
+        parts = [case['endian'] + ('' if c is None else str(c)) + code for c, code, _ in case['items']]
+        for _ in range(2):
+            rl = attempt(bs.pack, parts, *vals)
+            require(not is_raised(rl) and rl.tobytes() == ref, 'pack([f1, f2, ...]) differs from struct.pack of the joined format', got=rl if is_raised(rl) else rl.tobytes().hex()[:80],
+                    expected=ref.hex()[:80], fmt=parts)
+            c0, code0, v0 = case['items'][0]
+            first_vals = [uv(v) for v in v0]
+            r0 = attempt(bs.pack, parts[0], *first_vals)
+            ref0 = struct.pack(('=' if case['endian'] == '@' else case['endian']) + ('' if c0 is None else str(c0)) + code0, *first_vals)
+            require(not is_raised(r0) and r0.tobytes() == ref0, 'pack(f1) after pack([f1, f2, ...]) differs from struct.pack(f1)', got=r0 if is_raised(r0) else r0.tobytes().hex()[:80],
+                    expected=ref0.hex()[:80], fmt=parts[0])
     if case['factor'] and vals:
         f2 = f"{case['factor']}*{fmt}"
         r2 = attempt(bs.pack, f2, *(vals * case['factor']))
@@ -103,7 +118,8 @@ def run_pack(case):
 def array_case(draw, tier):
     code = draw(st.sampled_from(sorted(CODES)))
     n = draw(st.integers(0, 12))
-    return {'endian': draw(st.sampled_from('<>=@')), 'code': code, 'vals': draw(values_for(code, n)), 'swap': draw(st.booleans())}
+    return {'endian': draw(st.sampled_from('<>=@')), 'code': code, 'vals': draw(values_for(code, n)), 'swap': draw(st.booleans()),
+            'how': draw(st.sampled_from(['direct', 'direct', 'from_bytes', 'dtype_reassign_u8', 'dtype_reassign_wide', 'dtype_reassign_other_endian', 'extend_empty']))}
 
 
 def run_array(case):
@@ -112,8 +128,26 @@ def run_array(case):
     vals = [uv(v) for v in case['vals']]
     se = '=' if e == '@' else e
     ref = struct.pack(f'{se}{len(vals)}{code}', *vals)
-    a = attempt(bs.Array, e + code, vals)
-    require(not is_raised(a), 'Array(struct code, values) raised', got=a, code=e + code)
+    how = case.get('how', 'direct')
+
+    def make():
+        """an Array holding these items under dtype e+code, reached in different ways"""
+        if how == 'direct' or (not vals and how != 'extend_empty'):
+            return bs.Array(e + code, vals)
+        if how == 'from_bytes':
+            return bs.Array(e + code, ref)
+        if how == 'extend_empty':
+            x = bs.Array(e + code)
+            x.extend(vals)
+            return x
+        # created with another dtype over the same bytes, the struct code assigned afterwards
+        first = {'dtype_reassign_u8': 'uint8', 'dtype_reassign_wide': '<Q' if len(ref) % 8 == 0 else '<H' if len(ref) % 2 == 0 else 'uint8',
+                 'dtype_reassign_other_endian': ('>' if e == '<' else '<') + code}[how]
+        x = bs.Array(first, ref)
+        x.dtype = e + code
+        return x
+    a = attempt(make)
+    require(not is_raised(a), 'Array(struct code, values) raised', got=a, code=e + code, how=how)
     require(a.tobytes() == ref, 'Array(code, values).tobytes() differs from struct.pack', got=a.tobytes().hex()[:80], expected=ref.hex()[:80], code=e + code)
     exp = list(struct.unpack(f'{se}{len(vals)}{code}', ref))
     got = a.tolist()
@@ -123,7 +157,7 @@ def run_array(case):
     # byteswap converts between the two encodings
     if nb % 8 == 0:
         other = {'<': '>', '>': '<', '=': '>' if sys.byteorder == 'little' else '<', '@': '>' if sys.byteorder == 'little' else '<'}[e]
-        b = bs.Array(e + code, vals)
+        b = make()
         b.byteswap()
         ref_other = struct.pack(f'{other}{len(vals)}{code}', *vals)
         require(b.tobytes() == ref_other, 'Array.byteswap does not convert to the other byte order', got=b.tobytes().hex()[:80], expected=ref_other.hex()[:80])
